@@ -84,6 +84,11 @@ static int search_palette_sections( int16_t *buf, int size, int **palette_restar
     int max_palettes = round_up_divide(size, 64);
     *palette_restart_positions = NULL;
 
+    // No weights, no sections (a section codes at least one weight): the stream is only the end of stream marker
+    if (size <= 0) {
+        return 0;
+    }
+
     // Preliminary allocation of sufficient size
     restart_pos = (int*)malloc( max_palettes*sizeof(int) );
     if (!restart_pos) {
